@@ -90,7 +90,7 @@ func TestMain(m *testing.M) {
 		evid.Spec{Name: "TestPropCLI", Kind: "rapid", Quick: 80, Thorough: 2000, QuickShards: 4, ThoroughShards: 16},
 		evid.Spec{Name: "TestPropLarge", Kind: "rapid", Quick: 8, Thorough: 64, QuickShards: 8, ThoroughShards: 16},
 		evid.Spec{Name: "TestPropCLILarge", Kind: "rapid", Quick: 3, Thorough: 32, QuickShards: 3, ThoroughShards: 16},
-		evid.Spec{Name: "TestPropExactDist", Kind: "rapid", Quick: 6000, Thorough: 160000, QuickShards: 4, ThoroughShards: 16},
+		evid.Spec{Name: "TestPropExactDist", Kind: "rapid", Quick: 6000, Thorough: 120000, QuickShards: 4, ThoroughShards: 16},
 		evid.Spec{Name: "TestPropCLIHistory", Kind: "rapid", Quick: 192, Thorough: 3200, QuickShards: 6, ThoroughShards: 16},
 	)
 	evid.Commands("obiclean")
